@@ -28,6 +28,6 @@ plan() {
   echo $list | tr ' ' '\n' | sort -u | tr '\n' ' '
 }
 mkdir -p .work
-for s in $seeds; do echo "$s $(plan $s)"; done > .work/matrix.plan
+for s in $seeds; do echo "$s $(plan $s)" | sed "s/ *$//"; done > .work/matrix.plan
 if [ -n "$PLAN_ONLY" ]; then cat .work/matrix.plan; exit 0; fi
 cat .work/matrix.plan | xargs -P 2 -L 1 sh -c 'n=$0; VERIF_PROCS=8 ./evalseed.sh seeded/$n/patch.diff $n "$@" 2>&1 | grep "seed=" | cut -c1-260'
